@@ -48,6 +48,7 @@ type vinfo struct {
 	dyn    *Type // `any` variable assigned once: its dynamic type (nil = nil interface)
 	hasDyn bool
 	param  bool
+	frozen bool // not to be grown while a loop over it is being generated
 }
 
 type helper struct {
@@ -77,6 +78,8 @@ type G struct {
 	loopDeep int
 	inLit    int
 	recs     []recInfo
+	// boundedStr: see strExpr
+	boundedStr bool
 }
 
 func (g *G) fresh(pfx string) string { g.nv++; return fmt.Sprintf("%s%d", pfx, g.nv) }
@@ -486,7 +489,10 @@ func (g *G) strLitVal() string {
 
 func (g *G) strExpr(d int) *Expr {
 	if d <= 0 || g.r.Chance(30) {
-		vs := g.vars(func(v *vinfo) bool { return v.t.Kind == TStr })
+		// boundedStr: the value is being stored into a string location; only
+		// immutable strings may feed it, so that no chain of assignments can double a
+		// string per loop iteration (`s += s`, `a = b + b; b = a + a`, …)
+		vs := g.vars(func(v *vinfo) bool { return v.t.Kind == TStr && (!g.boundedStr || v.role == rFixed) })
 		if len(vs) > 0 && g.r.Chance(65) {
 			return g.use(kit.Pick(g.r, vs))
 		}
@@ -530,8 +536,10 @@ func (g *G) strExpr(d int) *Expr {
 		}
 		return StrLit(g.strLitVal())
 	case 5:
-		if e := g.elemRead(StrT, d-1); e != nil {
-			return e
+		if !g.boundedStr {
+			if e := g.elemRead(StrT, d-1); e != nil {
+				return e
+			}
 		}
 		return StrLit(g.strLitVal())
 	default:
@@ -554,6 +562,10 @@ func (g *G) expr(t *Type, d int) *Expr {
 
 // value builds a fresh value of any type (literals / make / zero for composites).
 func (g *G) value(t *Type) *Expr {
+	// values are stored somewhere (elements, fields, map entries, arguments): keep strings bounded
+	saved := g.boundedStr
+	g.boundedStr = true
+	defer func() { g.boundedStr = saved }()
 	switch t.Kind {
 	case TInt, TBool, TStr:
 		return g.expr(t, 1)
@@ -631,6 +643,9 @@ func (g *G) declScalar() []*Stmt {
 	t := g.scalarType()
 	name := g.fresh("v")
 	var st *Stmt
+	// a chain of string declarations `v2 := v1 + v1 …` would multiply lengths too
+	g.boundedStr = t.Kind == TStr
+	defer func() { g.boundedStr = false }()
 	switch g.r.Intn(3) {
 	case 0:
 		e := g.expr(t, 2)
@@ -666,7 +681,7 @@ func (g *G) scalarLvalue() *Expr {
 		v := v
 		switch v.t.Kind {
 		case TInt, TBool, TStr:
-			if v.role == rPlain {
+			if v.role == rPlain && !v.frozen {
 				cs = append(cs, func() *Expr { return V(v.name, v.t) }, func() *Expr { return V(v.name, v.t) })
 			}
 		case TArr:
@@ -741,9 +756,14 @@ func (g *G) assign() []*Stmt {
 		}
 		return []*Stmt{SDec(lv)}
 	case t.Kind == TStr && g.r.Chance(40):
-		return []*Stmt{SOpSet("add", lv, g.strExpr(1))}
+		g.boundedStr = true
+		rhs := g.strExpr(1)
+		g.boundedStr = false
+		return []*Stmt{SOpSet("add", lv, rhs)}
 	}
+	g.boundedStr = t.Kind == TStr
 	rhs := g.expr(t, 2)
+	g.boundedStr = false
 	if rhs.Op == "i" && g.r.Bool() {
 		rhs.Bare = true
 	}
@@ -853,8 +873,21 @@ func (g *G) rangeStmt() []*Stmt {
 	if g.loopDeep >= 2 {
 		return g.printStmt()
 	}
+	// The trip count must not be able to feed itself: a container that can grow
+	// (reassignable string, growable slice) is ranged over only outside every
+	// other loop, and is frozen (no growth) while its loop body is generated —
+	// otherwise `for range s { for range s { s += "x" } }` grows exponentially.
+	outer := g.loopDeep == 0
 	cs := g.vars(func(v *vinfo) bool {
-		return v.t.Kind == TSlice || v.t.Kind == TStr || (v.t.Kind == TArr && v.t.N > 0)
+		switch v.t.Kind {
+		case TArr:
+			return v.t.N > 0
+		case TSlice:
+			return v.role != rGrow || outer
+		case TStr:
+			return v.role == rFixed || outer
+		}
+		return false
 	})
 	if len(cs) == 0 {
 		return g.declSlice()
@@ -862,6 +895,10 @@ func (g *G) rangeStmt() []*Stmt {
 	g.loopDeep++
 	defer func() { g.loopDeep-- }()
 	c := kit.Pick(g.r, cs)
+	if !c.frozen && (c.role == rGrow || (c.t.Kind == TStr && c.role != rFixed)) {
+		c.frozen = true
+		defer func() { c.frozen = false }()
+	}
 	label := g.freshLabel()
 	used := false
 	k, v := g.fresh("k"), g.fresh("e")
@@ -1048,7 +1085,7 @@ func (g *G) declSlice() []*Stmt {
 // sliceOps: re-slicing, in-place append, clipped growth, copy — on FIXED slices.
 func (g *G) sliceOp() []*Stmt {
 	fixed := g.vars(func(v *vinfo) bool { return v.t.Kind == TSlice && v.role == rFixed })
-	grow := g.vars(func(v *vinfo) bool { return v.t.Kind == TSlice && v.role == rGrow })
+	grow := g.vars(func(v *vinfo) bool { return v.t.Kind == TSlice && v.role == rGrow && !v.frozen })
 	ci := func(n int) *Expr { return &Expr{Op: "i", T: IntT("int"), Int: big.NewInt(int64(n)), Bare: true} }
 	switch k := g.r.Intn(7); {
 	case k <= 1 && len(grow) > 0: // v = append(v, …)
@@ -1372,7 +1409,7 @@ func (g *G) deleteStmt(m *vinfo) *Stmt {
 
 func (g *G) pointerOp() []*Stmt {
 	// pointer to a scalar variable, writes through it
-	vs := g.vars(func(v *vinfo) bool { return isScalar(v.t) && v.role == rPlain })
+	vs := g.vars(func(v *vinfo) bool { return isScalar(v.t) && v.role == rPlain && !v.frozen })
 	if len(vs) == 0 {
 		return g.declScalar()
 	}
@@ -1380,7 +1417,10 @@ func (g *G) pointerOp() []*Stmt {
 	name := g.fresh("p")
 	pv := g.declare(&vinfo{name: name, t: PtrT(v.t), nonNil: true})
 	pv.used = true
-	return []*Stmt{SDef(Addr(V(v.name, v.t)), name), SSet(Deref(V(name, pv.t)), g.expr(v.t, 1)), SPrint(g.use(v))}
+	g.boundedStr = true
+	nv := g.expr(v.t, 1)
+	g.boundedStr = false
+	return []*Stmt{SDef(Addr(V(v.name, v.t)), name), SSet(Deref(V(name, pv.t)), nv), SPrint(g.use(v))}
 }
 
 // ---------------------------------------------------------------- interfaces
